@@ -19,11 +19,11 @@ import (
 
 type c03Params struct {
 	Background bool // every partition holds a key from the start (see c03New)
-	Name   string
-	Opts   simcluster.Opts
-	Depth  int
-	MaxN   int
-	Leaves bool
+	Name       string
+	Opts       simcluster.Opts
+	Depth      int
+	MaxN       int
+	Leaves     bool
 }
 
 type c03Sys struct {
